@@ -58,11 +58,15 @@ Definition year_rule (yearlen year : Z) : R Z :=
   else if yearlen =? R2_YEAR_ARM3_LEN then add_i64 year R2_YEAR_ARM3_ADD
   else Val year.
 
-(* [if let Ok(s_) = scan::char(s.trim_start(), b':') { parsed.set_second(try_consume!(scan::number(s_, 2, 2)))?; }] *)
+(* [if let Ok(s_) = scan::char(s.trim_start(), b':') {
+     parsed.set_second(try_consume!(scan::number(s_.trim_start(), 2, 2)))?; }]
+   (the [.trim_start()] on [s_] is the repair fixes/C11-second-colon-space.diff; the translator
+   reports in R2_SECOND_TRIM whether the source has it) *)
 Definition opt_second (p : Parsed.parsed) (s : bytes) : PR (Parsed.parsed * bytes) :=
   let* r := char (trim_start s) R2_TIME_SEP2 in
   match r with
   | POk s_ =>
+      let s_ := if R2_SECOND_TRIM =? 1 then trim_start s_ else s_ in
       let+ '(s2, v) := number s_ R2_SECOND_MIN R2_SECOND_MAX in
       let+ p := pset (Parsed.set_second p v) in
       pok (p, s2)
